@@ -158,6 +158,25 @@ class TBuilder(Ty):
         return "({} × (List {}))".format(self.ctor_ty().lean(), self.cmd_ty().lean())
 
 
+class TEffect(Ty):
+    """an object with state that the translated code changes by calling its methods (the formula under construction):
+    a Lean value of a hand-written state type, threaded through the statements"""
+    def __init__(self, name, lean_ty):
+        self.name, self.lean_ty = name, lean_ty
+
+    def lean(self):
+        return self.lean_ty
+
+
+class TEffectClass(Ty):
+    """a class argument (`formula_class`) whose only use is to create the effect object"""
+    def __init__(self, name):
+        self.name = name
+
+    def lean(self):
+        raise Unsupported("class argument used as a value")
+
+
 class TMaybe(Ty):
     """a local variable that is assigned on some paths only (reading it elsewhere is UnboundLocalError)"""
     def __init__(self, elem):
@@ -188,6 +207,8 @@ class TVar(Ty):
     def __hash__(self):
         return id(self)
 
+
+EFFECT_VIEWS = {}        # effect name -> {abstract interface: Lean template}, filled from the specs
 
 INT, BOOL, STR, NONE, RANGE, ERASED = TInt(), TBool(), TStr(), TNone(), TRange(), TErased()
 
@@ -281,15 +302,27 @@ def join(a, b):
     if isinstance(a, TTuple) and isinstance(b, TTuple) and len(a.elems) == len(b.elems):
         js = [join(x, y) for x, y in zip(a.elems, b.elems)]
         return TTuple(js) if all(j is not None for j in js) else None
+    # scalar-or-sequence ⊔ one of its two components
+    if isinstance(a, TUnion) and (resolve(a.a) == b or resolve(a.b) == b):
+        return a
+    if isinstance(b, TUnion) and (resolve(b.a) == a or resolve(b.b) == a):
+        return b
     return None
 
 
 def coerce(code, frm, to):
     """Lean code of `code : frm` seen as `to` (frm must join into to)"""
     frm, to = resolve(frm), resolve(to)
+    if isinstance(to, TUnion) and not isinstance(frm, (TUnion, TVar)):
+        if resolve(to.a) == frm:
+            return "(Sum.inl {})".format(code)
+        if resolve(to.b) == frm:
+            return "(Sum.inr {})".format(code)
     if frm == to or isinstance(frm, TVar) or isinstance(to, TVar):
         unify(frm, to)
         return code
+    if isinstance(frm, TEffect) and isinstance(to, TAbs) and to.name in EFFECT_VIEWS.get(frm.name, {}):
+        return EFFECT_VIEWS[frm.name][to.name].format(c=code)
     if isinstance(to, TMaybe):
         if isinstance(frm, TMaybe):
             if frm.elem == to.elem:
